@@ -97,6 +97,15 @@ def fam_repeat_nonblock(n):
     return "subroutine s(a)\n  real :: a(10)\n" + "".join("  do %d i = 1, 10\n%d a(i) = %d\n" % (100 + k, 100 + k, k) for k in range(n)) + "end subroutine s\n"
 
 
+def fam_repeat_nonblock_commented(n):
+    """as repeat-nonblock-do, a comment line in front of every DO statement (comments kept)"""
+    return "subroutine s(a)\n  real :: a(10)\n" + "".join("  ! loop %d\n  do %d i = 1, 10\n%d a(i) = %d\n" % (k, 100 + k, 100 + k, k) for k in range(n)) + "end subroutine s\n"
+
+
+def fam_if_commented(n):
+    return _nest(lambda i: "! level %d\n%sif (a%d > 0) then" % (i, "  " * (i + 1), i), lambda i: "end if ! %d" % i, n)
+
+
 def fam_long_expr(n):
     return "program p\n  x = " + " + ".join("a%d * b%d" % (i, i) for i in range(n)) + "\nend program p\n"
 
@@ -128,6 +137,8 @@ FAMILIES = {
     "repeat-statement": (fam_repeat_stmt, 1, 128, 1024),
     "repeat-loop": (fam_repeat_loop, 1, 64, 512),
     "repeat-nonblock-do": (fam_repeat_nonblock, 1, 32, 128),
+    "repeat-nonblock-do+comments": (fam_repeat_nonblock_commented, 1, 32, 128),
+    "nested-if+comments": (fam_if_commented, 1, 32, 128),
     "long-expression": (fam_long_expr, 1, 64, 256),
     "long-arglist": (fam_args, 1, 64, 256),
     "continued-statement": (fam_continued, 1, 64, 256),
@@ -135,7 +146,7 @@ FAMILIES = {
 }
 
 
-def count_calls(src, std="f2008"):
+def count_calls(src, std="f2008", keep=False):
     """(calls at reader level, calls at string level, outcome kind); aborts over BUDGET"""
     U = real.U
     orig = U.Base.__new__
@@ -153,7 +164,7 @@ def count_calls(src, std="f2008"):
     U.Base.__new__ = counting
     try:
         try:
-            o = real.try_parse(src, std=std, free=True)
+            o = real.try_parse(src, std=std, free=True, ignore_comments=not keep)
             kind = o.kind
             if o.kind == "other" and isinstance(o.exc, Budget):
                 kind = "budget"
@@ -181,8 +192,10 @@ def run_case(case):
     rp = {"case": case}
     for n in sizes:
         src = genf(n)
-        a, b, kind = count_calls(src, case.get("std", "f2008"))
+        a, b, kind = count_calls(src, case.get("std", "f2008"), keep=name.endswith("+comments"))
         T[n] = a + b
+        if n >= 8:
+            res.setdefault("keys", []).append("%s:%s:%d" % (name, case.get("std"), n))
         res["counts"]["size:%d" % n] = a + b
         if kind == "budget":
             res["findings"].append({"signature": "superpolynomial:" + name,
